@@ -1,11 +1,15 @@
 """C10 - exit flags and messages tell the truth."""
+import numpy as np
+from hypothesis import strategies as st
+
 from ..core import CaseResult, Profile
 from .. import scenario as sc, clauses as cl
 
 PROP = "C10"
 LEVEL = "exploration"
 RULE = ("Hypothesis scenarios as for C02/C03 with model.abs_tol/rel_tol drawn over decades, zero-residual problems, "
-        "restarts.max_unsuccessful_restarts in {1,2,3}, rhoend_scale, diagnostics always on. Restarts are counted "
+        "restarts.max_unsuccessful_restarts in {1,2,3}, rhoend_scale, diagnostics always on; in a third of the cases model.abs_tol "
+        "is set to a multiple (2 .. 0.01) of f(x0) so that the small-objective exit fires at every stage of a run. Restarts are counted "
         "independently of soln.nruns by wrapping solve_main and Controller.soft_restart. Non-trivial = at least one of "
         "the six implications has its antecedent true in the run (classes 'ante:*' in the histogram). Distinct = SHA-1.")
 ASSUMPTIONS = ["f(x0) is the objective of the first evaluation point (mean of its samples), recomputed by the harness",
@@ -13,6 +17,25 @@ ASSUMPTIONS = ["f(x0) is the objective of the first evaluation point (mean of it
                "restarts performed = (calls of solve_main - 1) + soft restarts granted (wrapper counts)"]
 
 PROF = sc.make_prof(zero_resid=0.25, diag=1.0, rhoend_exps=[1, 1, 2, 3, 5])
+
+
+@st.composite
+def cases(draw):
+    """Scenarios of the shared generator; in a third of them the small-objective threshold is placed next to the values
+    the run will actually see (a multiple of f(x0)), so that the 'sufficiently small' exit fires at every stage of a run -
+    including in the middle of a sampling batch - and a threshold test that is slightly off has something to bite on."""
+    c = draw(sc.scenarios(PROF))
+    if c["fam"] != "script" and draw(st.integers(0, 2)) == 0:
+        lo, up = sc.user_bounds(c)
+        x0 = np.minimum(np.maximum(np.array(c["x0"], dtype=float), lo), up)
+        with np.errstate(all="ignore"):
+            r0 = sc.smooth_resid(c, x0)
+            f0 = float(np.dot(r0, r0))
+        if np.isfinite(f0) and f0 > 0:
+            c["up"]["model.abs_tol"] = f0 * draw(st.sampled_from([2.0, 0.9, 0.5, 0.2, 0.1, 0.01]))
+            c["up"].pop("model.rel_tol", None)
+            c["tags"] = sorted(set(c["tags"] + ["threshold-near-f0"]))
+    return c
 
 
 def run(case):
@@ -27,5 +50,5 @@ def run(case):
     return res
 
 
-PROFILES = {"solve": Profile("solve", lambda: sc.scenarios(PROF), run, quick=5000, thorough=120000, timeout=120)}
+PROFILES = {"solve": Profile("solve", cases, run, quick=5000, thorough=120000, timeout=120)}
 KNOWN = {}
